@@ -68,6 +68,7 @@ func checkC04(ctx *Ctx, r *Report) {
 	c20StrictHelper(ctx, r)
 	c04CueDepthBounded(ctx, r, g)
 	c04FourthHunt(ctx, r)
+	c06ListAliasExpandedOnce(ctx, r)
 }
 
 // ---------------------------------------------------------------------------
@@ -2597,7 +2598,12 @@ func c04FourthHunt(ctx *Ctx, r *Report) {
 				counters := map[*types.Var]bool{}
 				ast.Inspect(fd.Body, func(m ast.Node) bool {
 					if inc, ok := m.(*ast.IncDecStmt); ok && inc.Tok == token.INC {
-						if sel, ok := ast.Unparen(inc.X).(*ast.SelectorExpr); ok && isIdentOf(info, sel.X, recv) {
+						// `recv.n++`, or `*recv.n++` when the receiver is a value and the counter is shared through a pointer
+						target := ast.Unparen(inc.X)
+						if star, ok := target.(*ast.StarExpr); ok {
+							target = ast.Unparen(star.X)
+						}
+						if sel, ok := target.(*ast.SelectorExpr); ok && isIdentOf(info, sel.X, recv) {
 							if f := fieldOf(info, sel); f != nil {
 								counters[f] = true
 							}
@@ -2619,7 +2625,11 @@ func c04FourthHunt(ctx *Ctx, r *Report) {
 					if !ok || (be.Op != token.GTR && be.Op != token.GEQ) {
 						return true
 					}
-					sel, ok := ast.Unparen(be.X).(*ast.SelectorExpr)
+					left := ast.Unparen(be.X)
+					if star, ok := left.(*ast.StarExpr); ok {
+						left = ast.Unparen(star.X)
+					}
+					sel, ok := left.(*ast.SelectorExpr)
 					if !ok || !counters[fieldOf(info, sel)] {
 						return true
 					}
